@@ -76,6 +76,13 @@ fn check_io_kind(make: &dyn Fn() -> Option<lexpr::parse::Error>) -> Result<(), (
     if let Some(e) = make() {
         let cat = category(&e);
         let text = err_text(&e);
+        // the three predicates are how a streaming caller asks for the category
+        if (e.is_eof(), e.is_syntax(), e.is_io()) != (cat == "eof", cat == "syntax", cat == "io") {
+            return Err((
+                format!("predicates cat={}", cat),
+                format!("{} error {:?}: is_eof={} is_syntax={} is_io={}", cat, text, e.is_eof(), e.is_syntax(), e.is_io()),
+            ));
+        }
         let ioe: io::Error = e.into();
         let want = match cat {
             "syntax" => io::ErrorKind::InvalidData,
@@ -311,4 +318,30 @@ fn run(ctx: &mut Ctx) {
 fn replay(_sub: &str, case: &Json) -> Option<CaseResult> {
     let c: Case = serde_json::from_value(case.get("case")?.clone()).ok()?;
     Some(check_case(&c))
+}
+
+/// libFuzzer entry: raw bytes as a location case, raw text as a truncation
+/// case (every proper prefix of a text that parses), or a generated layout.
+pub fn fuzz(f: &mut FuzzIn) -> Option<CaseResult> {
+    match f.mode % 3 {
+        0 => {
+            let (q, input) = f.raw_q_input();
+            if input.len() > 300 {
+                return None;
+            }
+            Some(check_case(&Case::Loc { input: input.to_vec(), q }))
+        }
+        1 => {
+            let (q, input) = f.raw_q_input();
+            if input.len() > 120 {
+                return None;
+            }
+            let text = std::str::from_utf8(input).ok()?.to_string();
+            Some(check_case(&Case::TruncText { text, q }))
+        }
+        _ => {
+            let c = f.draw(&g_trunc())?;
+            Some(check_case(&c))
+        }
+    }
 }
